@@ -36,7 +36,116 @@ def apply_change(text, ch):
 
 class Doc:
     CLASSES = ["ins_stmt", "del_stmt", "repl_stmt", "ins_decl", "del_decl", "ins_var", "del_var", "ins_param", "del_param", "ins_comment", "del_comment",
-               "ws", "repl_literal", "repl_ident", "repl_expr", "type_char", "append_eof"]
+               "ws", "repl_literal", "repl_ident", "repl_expr", "type_char", "append_eof",
+               "add_else", "del_else", "ins_arg", "del_arg", "toggle_ref", "change_op", "wrap_paren", "negate", "wrap_block"]
+
+    # ---- structural edits below the statement level (still valid -> valid)
+    def _stmts(s, kind=None):
+        return [(st, proc, parent, in_list) for st, proc, parent, in_list, depth in s.P.statements() if kind is None or st.kind == kind]
+
+    def add_else(s):
+        c = [x for x in s._stmts("If") if x[0].els is None and not (x[2].kind == "If" and x[2].then is x[0] and x[2].els is not None)]
+        if not c: return None
+        st, proc, parent, in_list = s.rng.choice(c)
+        s.G.cur = proc; s.G.type_pool = getattr(proc, "visible_types", None)
+        e = s.G.block(0) if s.rng.random() < .5 else s.G.stmt(0, ["assign", "call", "empty"])
+        st.els = e; st.parts = st.parts + [kw("else"), e]
+        return "block" if e.kind == "Block" else "simple"
+
+    def del_else(s):
+        c = [x for x in s._stmts("If") if x[0].els is not None]
+        if not c: return None
+        st = s.rng.choice(c)[0]
+        st.els = None; st.parts = st.parts[:5]
+        return "else"
+
+    def ins_arg(s):
+        c = s._stmts("Call")
+        if not c: return None
+        st, proc, parent, in_list = s.rng.choice(c)
+        s.G.cur = proc
+        a = s.G.expr(s.rng.choice([0, 1, 2]))
+        i = s.rng.randint(0, len(st.args))
+        st.args.insert(i, a); s._rebuild_call(st)
+        return "first" if i == 0 else "last" if i == len(st.args) - 1 else "middle"
+
+    def del_arg(s):
+        c = [x for x in s._stmts("Call") if x[0].args]
+        if not c: return None
+        st = s.rng.choice(c)[0]
+        i = s.rng.randrange(len(st.args)); st.args.pop(i); s._rebuild_call(st)
+        return "first" if i == 0 else "other"
+
+    def _rebuild_call(s, st):
+        parts = [st.name, st.lparen]; st.commas = []
+        for i, a in enumerate(st.args):
+            if i:
+                c = sym(","); st.commas.append(c); parts.append(c)
+            parts.append(a)
+        st.parts = parts + [st.rparen, st.parts[-1]]
+
+    def toggle_ref(s):
+        c = [p for proc in s.P.procs for p in proc.params]
+        if not c: return None
+        p = s.rng.choice(c); n = p.node
+        if n.is_ref: n.parts = n.parts[1:]; n.is_ref = False; p.is_ref = False
+        else:
+            k = kw("ref"); k.lead, n.parts[0].parts[0].lead = n.parts[0].parts[0].lead, []     # doc comments stay in front of the parameter
+            n.parts = [k] + n.parts; n.is_ref = True; p.is_ref = True
+        return "ref" if n.is_ref else "value"
+
+    def change_op(s):
+        c = [n for n in gen.walk_nodes(s.P.root) if n.kind == "Binary"]
+        if not c: return None
+        n = s.rng.choice(c)
+        same = {"+": "-", "-": "+", "*": "/", "/": "*"}.get(n.op) or s.rng.choice([o for o in gen.COMPARE if o != n.op])
+        n.op = same; n.parts[1].text = same       # same precedence level: the derivation keeps its shape
+        return "arith" if same in gen.ARITH else "compare"
+
+    def _expr_sites(s):
+        sites = []
+        for n in gen.walk_nodes(s.P.root):
+            for i, p in enumerate(n.parts):
+                if isinstance(p, Node) and p.kind in ("IntLit", "NamedVar", "ArrayAccess", "Paren") and n.kind != "ArrayType" and not (n.kind in ("Assign", "ArrayAccess") and i == 0):
+                    sites.append((n, i))
+        return sites
+
+    def _replace_part(s, n, i, new):
+        old = n.parts[i]; n.parts[i] = new
+        for k, v in list(n.__dict__.items()):
+            if v is old: n.__dict__[k] = new
+            elif isinstance(v, list) and k != "parts":
+                for j, x in enumerate(v):
+                    if x is old: v[j] = new
+
+    def wrap_paren(s):
+        sites = s._expr_sites()
+        if not sites: return None
+        n, i = s.rng.choice(sites); old = n.parts[i]
+        if old.kind == "Paren" and s.rng.random() < .5:
+            inner = old.expr
+            if inner.kind == "Binary" and n.kind in ("Binary", "Unary"): return None      # removing these parentheses would change the derivation
+            s._replace_part(n, i, inner); return "unwrap"
+        s._replace_part(n, i, gen.mk_paren(old)); return "wrap"
+
+    def negate(s):
+        sites = [(n, i) for n, i in s._expr_sites()]
+        if not sites: return None
+        n, i = s.rng.choice(sites)
+        s._replace_part(n, i, gen.mk_unary(n.parts[i])); return "minus"
+
+    def wrap_block(s):
+        c = [x for x in s._stmts() if x[3]]
+        if not c: return None
+        st, proc, parent, in_list = s.rng.choice(c)
+        lst = parent.stmts; i = next(k for k, x in enumerate(lst) if x is st)
+        if st.kind == "Block" and s.rng.random() < .5:
+            lst[i:i + 1] = st.stmts; label = "unwrap"
+        else:
+            lst[i] = gen.mk_block([st]); label = "wrap"
+        if parent.kind == "ProcDecl": gen.rebuild_proc(parent.decl)
+        else: gen.rebuild_block(parent)
+        return label
 
     def __init__(s, seed, rng, typed=True, eol="\n", style="random", **opts):
         s.rng = rng; s.eol = eol; s.style = style
